@@ -1277,7 +1277,6 @@ Proof.
         assert (Hkk : S k <= length sv) by (unfold k; lia).
         rewrite skipn_app in Hh. replace (S k - length sv) with 0 in Hh by lia. cbn [skipn] in Hh.
         apply (IH b (skipn (S k) sv)); assumption.
-    + contradiction.
 Qed.
 
 (** Older generations are never touched: whatever the newer generations do, the vectors of
@@ -1336,7 +1335,8 @@ Proof.
   pose proof (hist_len base saved Hb) as Ln.
   pose proof (hist_len c1 _ H2) as Lc. rewrite app_length in Lc. cbn [length] in Lc.
   destruct (normalize_hist _ c1 (length (a_gens (as_arena base)) - 1) H2 S2 ltac:(lia)) as (b & Hn & Hs & _).
-  rewrite Hs. replace (length (a_gens (as_arena c1)) - S (length (a_gens (as_arena base)) - 1) - 1) with (length sv') in Hn by lia.
+  rewrite Hs in Hc. subst c.
+  replace (length (a_gens (as_arena c1)) - S (length (a_gens (as_arena base)) - 1) - 1) with (length sv') in Hn by lia.
   rewrite nth_error_app2, Nat.sub_diag in Hn by lia. cbn in Hn. congruence.
 Qed.
 
